@@ -23,7 +23,7 @@ UNIT_TIMEOUT = 900
 SIGMA_U = ["x", "y", ":"]
 NAMES = ["a", "b", "c", "d"]
 DELIMS = [":", "/", "::"]
-MODES = ["ctor", "incremental", "ctor+add", "synonyms-late", "shared-list"]
+MODES = ["ctor", "incremental", "ctor+add", "synonyms-late", "shared-list", "first-of-a-chain"]
 
 
 def bounds(tier):
@@ -124,6 +124,17 @@ def construct(recs, delim, mode, probe=None):
 
         conv = build_shared_list(recs, delim)
         conv._c01_effective_model = True   # "registered" is what the converter's own records list says
+        return conv
+    if mode == "first-of-a-chain":
+        # the converter was the first input of a chain whose result learnt more URI prefixes (also inside its own ones)
+        from ..impl import curies as _c
+
+        conv = Converter([to_record(r) for r in recs], delimiter=delim)
+        other = Converter([Record(prefix="zq", uri_prefix="zq:")] + [Record(prefix=f"zq{i}", uri_prefix=r.uri_prefix + "zq") for i, r in enumerate(recs)])
+        res = _c.chain([conv, other])
+        res.add_prefix("zr", "zr:")
+        if recs:
+            res.add_prefix(recs[0].prefix, recs[0].uri_prefix + "zr", merge=True)
         return conv
     if mode == "synonyms-late":
         conv = Converter([], delimiter=delim)
